@@ -376,6 +376,11 @@ def op(name, w, *args):
                     return a
                 if mask == 0:
                     return const(w, 0)
+                if a[0] == 'lin' and mask & (mask + 1) == 0:
+                    # the low k bits of a sum depend on the low k bits of the summands only: (x + y) & (2^k - 1) is the
+                    # k-bit linear form of the truncated operands, zero-extended (sub-word arithmetic on a wider carrier)
+                    k = mask.bit_length()
+                    return cat(w, [_lin(k, a[2], [(slice_(t, 0, k), c) for (t, c) in a[3]]), const(w - k, 0)])
                 # runs of the mask
                 out = []
                 i = 0
